@@ -56,7 +56,12 @@ def gen_case(rng: Rng, i: int, tier: str):
             size = min(size, 768)
     entry = "writef" if tier == "quick" or r.chance(0.6) else "write"
     read = "factory" if tier == "quick" else r.pick(["factory", "path", "testzip"])
-    return {"chain": chain, "tex": tex, "size_mib": size, "position": r.pick(["first", "last", "between"]), "entry": entry, "read": read, "seed": r.randrange(1 << 30)}
+    case = {"chain": chain, "tex": tex, "size_mib": size, "position": r.pick(["first", "last", "between"]), "entry": entry, "read": read, "seed": r.randrange(1 << 30)}
+    # environment knob: the extraction chunk is derived from the process's data-segment limit when one is set
+    # (properties.get_memory_limit); a generous soft limit must leave the 128 MB cap in force
+    if rng.sub("rlimit").chance(0.35):
+        case["rlimit_data_gib"] = 16
+    return case
 
 
 class LazySource(io.BufferedIOBase):
@@ -152,7 +157,7 @@ def run_case(case):
     size = case["size_mib"] * MiB
     fam = gen.chain_family(case["chain"])
     password = "secret" if gen.chain_has_aes(case["chain"]) else None
-    cls = {"chain": fam, "tex": case["tex"], "position": case["position"]}
+    cls = {"chain": fam, "tex": case["tex"], "position": case["position"], "rlimit_data": bool(case.get("rlimit_data_gib"))}
 
     def viol(oracle, site, detail, **extra):
         c = dict(cls)
@@ -216,6 +221,21 @@ def run_case(case):
         return os.path.getsize(archive)
 
     def do_read():
+        if case.get("rlimit_data_gib"):
+            import resource
+
+            soft0, hard0 = resource.getrlimit(resource.RLIMIT_DATA)
+            want_soft = case["rlimit_data_gib"] << 30
+            if hard0 != resource.RLIM_INFINITY:
+                want_soft = min(want_soft, hard0)
+            resource.setrlimit(resource.RLIMIT_DATA, (want_soft, hard0))
+            try:
+                return _do_read()
+            finally:
+                resource.setrlimit(resource.RLIMIT_DATA, (soft0, hard0))
+        return _do_read()
+
+    def _do_read():
         with py7zr.SevenZipFile(archive, "r", password=password) as z:
             if case["read"] == "testzip":
                 return ("testzip", z.testzip())
